@@ -232,6 +232,8 @@ def _capture_sweep(db, qual, call_prysm_factory, presets=None):
     node, fr = captured['node'], captured['frame']
     pre = list(stores)
     del stores[:]
+    if not isinstance(node.target, ast.Name):
+        raise AnalysisError('%s: the sweep does not run over a single index (it unpacks `%s`)' % (qual, ast.unparse(node.target)))
     fr.env[node.target.id] = dom.sym('n')
     it.exec_block(node.body, fr)
     if len(stores) != 1:
@@ -323,6 +325,12 @@ def _basis_sweep_rules(run, db, only, fixed_decided=False):
         f, it, dom, fr, node, pre, step = _capture_sweep(db, qual, atoms, presets)
         R = dom.R
         tgt, s_idx, s_val, s_node, _ = step
+        from .common import loop_carried as _lc
+        carried_ = sorted(c_ for c_ in _lc(node) if c_ in fr.env)
+        if carried_:
+            # an entry of the output kept in a local from one pass to the next (d_above = ds[n]): the pass is not a function of the index
+            # alone as this reading assumes; the fixed-length decision follows such a sweep as it stands
+            raise AnalysisError('%s: the sweep carries %s from pass to pass' % (f.name, carried_))
         n = Rat(R.atom('n'))
         c = lambda k: Rat(R.func('idx', [Rat(R.atom(cname)), k]))
         b = lambda k: Rat(R.func('idx', [tgt, k]))
